@@ -34,6 +34,19 @@ CLAIMED = {
          "plain map are proved as refutation witnesses (W1-W5). Tied to the code by replaying every operation of generated sequences on the real BadgerStore",
          "13 theorems, no axioms; Badger atomicity/durability and codecs assumed (C15); Reset/Bootstrap out of this model (C11/C13)",
          "Coq refinement proof (simulation relation) + operation-level correspondence with the real BadgerStore"),
+ "C01": ("Safety core of agreement proved in Coq on the model's virtual-voting loop for all views (unbounded rounds/witnesses): a supermajority tally forces all "
+         "later votes, two views never decide a witness's fame differently, a lagging view's decision is every larger view's decision, map-iteration order is "
+         "irrelevant; the hypotheses that tie views to the DAG (view_ok / same_history) are explicit premises, not yet discharged (partial). The full agreement "
+         "statement is evaluated by the oracle on real cores after every action of random lagging-view gossip histories with static and dynamic membership, "
+         "and every observable of every node is compared with the model after every action",
+         "partial: stages S1-S3 (coordinates = ancestry) are premises; dynamic membership inside one fame decision not covered by the theorems",
+         "Coq proof of virtual-voting safety (quorum intersection, induction on rounds) + gossip-history correspondence + prefix-consistency oracle"),
+ "C03": ("Proved: fame decisions are independent of witness iteration order and monotone in the view; the consensus passes never touch the admitted DAG. "
+         "Refuted in Coq with a 15-event witness replayed on the code: results depend on the batching of consensus passes (known finding). Order / prefix / store / "
+         "cache independence are full statements kept as Definitions and evaluated on every generated DAG (random topological orders incl. maximally delayed "
+         "creators, downward-closed cuts, Badger vs in-memory, batch sizes), each run also replayed on the model",
+         "partial: order-independence and prefix theorems over whole DAGs not proved; batching clause is a known finding",
+         "Coq theorems + refutation witness + DAG re-feeding differential oracle + model replay (per-event and batched)"),
 }
 NOT_YET = "check not built yet in this commit (work in progress; to be claimed)"
 NA = {}
